@@ -41,6 +41,7 @@ type Prog struct {
 	// errors outside the core packages that were tolerated
 	Tolerated []string
 	LoadS     float64
+	nf        *newFnInfo
 }
 
 func isCanopyPath(p string) bool { return p == modPath || strings.HasPrefix(p, modPath+"/") }
